@@ -113,8 +113,11 @@ double one_normest_matrix_power(const gsl_matrix_complex * M, unsigned int p){
   if(p%2!=0 and p>2)
     gsl_matrix_complex_memcpy(MP,tmp);
 
-  double onc = one_normest_core(MP);
-  return onc;
+  //The power has been formed explicitly, so its 1-norm is available exactly
+  //(and more cheaply than an estimate). The randomized estimator can be low by
+  //many orders of magnitude when its probing vectors lie in the kernel of the
+  //matrix, which makes matrix_exponential skip the scaling step.
+  return exact_1_norm(MP);
 }
 
 void resample_column(unsigned int i, gsl_matrix *X,const gsl_rng* rng){
@@ -310,8 +313,8 @@ double one_normest_product(const gsl_matrix_complex *A,const gsl_matrix_complex 
   SQUIDS_THREAD_LOCAL gsl_matrix_complex_holder product;
   product.reset(A->size1,A->size2);
   gsl_blas_zgemm(CblasNoTrans,CblasNoTrans,GSL_COMPLEX_ONE,B,A,GSL_COMPLEX_ZERO,product);
-  double normest = one_normest_core(product);
-  return normest;
+  //as above: the product is at hand, use its exact norm
+  return exact_1_norm(product);
 }
   
 struct gsl_rng_holder{
